@@ -123,7 +123,7 @@ func VerifC20Sections() {
 			return
 		}
 		verifAssert("filters-cache-sizes-positive", c.CustomFilterCacheSize > 0 && c.SafeSearchCacheSize > 0)
-		verifAssert("filters-rule-list-cache-size-positive", c.RuleListCache.Size > 0)
+		verifAssert("filters-rule-list-cache-size-positive-when-enabled", !c.RuleListCache.Enabled || c.RuleListCache.Size > 0)
 		verifAssert("filters-response-ttl-positive", c.ResponseTTL.Duration > 0)
 		verifAssert("filters-refresh-interval-positive", c.RefreshIvl.Duration > 0)
 		verifAssert("filters-timeouts-positive", c.RefreshTimeout.Duration > 0 && c.IndexRefreshTimeout.Duration > 0 && c.RuleListRefreshTimeout.Duration > 0)
